@@ -30,17 +30,20 @@ Proof. exact eof_all. Qed.
 Print Assumptions C10_eof_errors_incomplete.
 
 (* ---- prefix clause on the model ----
-   Full statement aimed at (NOT proved for unbounded length):
-     C10_prefix_monotone : forall posix q r, accepted (parse_toks posix (q ++ r)) = true ->
-        accepted (parse_toks posix q) = true \/ incomplete (parse_toks posix q) = true
-   (every token-boundary cut, hence every newline cut).  What is proved:
-   (a) for all inputs: the lemma for every token-level loop of the parser (redirections, the word/redirect loop
-       of a simple command, for-word lists, case patterns, the for header) and the inductive step for the
-       statement loop Parser.stmts given the lemma for getStmt; Proofs/CoreGrammarProofs.v also has the inductive
-       steps for followStmts, block, subshell, while, if/elif, funcDecl, the && || loop, the | loop and getStmt
-       (11 of the 15 mutual cases: step_follow ... step_get). Open: gotStmtPipe, forClause, caseClause, caseItems
-       and the final assembly (same scheme: pre_g_bind + C10_eof_errors_incomplete);
-   (b) the full statement for every token list of length <= 4, exhaustively (954,305 lists, every cut). *)
+   C10_prefix_monotone: for ALL token lists q, r, both variants and every fuel: if the parser accepts q ++ r then on
+   the prefix q (cut at ANY token boundary, hence at every newline token) it succeeds, or fails with an error marked
+   Incomplete, or runs out of fuel.  Proved by a mutual induction over the 15 parsing functions (lockstep until q is
+   used up, then C10_eof_errors_incomplete).  PARTIAL in one respect only: the out-of-fuel alternative is not
+   excluded (no fuel-monotonicity lemma), so the statement is about [stmts px fuel] with the same fuel on both
+   inputs rather than about parse_core's own fuel_for; the code leg never observes PFuel (it would be a mismatch).
+   Also proved: the same statement for parse_core itself on every token list of length <= 4 (exhaustive), and the
+   lemma for the simple-command loop / the stmts step as separate theorems. *)
+Theorem C10_prefix_monotone : forall px fuel q r,
+  accepted (stmts px fuel 0 QNone [] true false (q ++ r)) = true ->
+  let res := stmts px fuel 0 QNone [] true false q in
+  accepted res = true \/ incomplete res = true \/ out_of_fuel res = true.
+Proof. exact prefix_ok_or_incomplete. Qed.
+Print Assumptions C10_prefix_monotone.
 
 Theorem C10_prefix_monotone_simple_command_partial : forall r px fuel o q first ts,
   pre_g end_l (lock_l r) (call_loop px fuel (S o) q first (ts ++ r)) (call_loop px fuel (S o) q first ts).
